@@ -117,6 +117,11 @@ JResample(r) ==
         /\ o.ok => /\ Clause(i, "C05.resample.finite", o.finite)
                    /\ Clause(i, "C05.resample.count.vertices", ResampleCountOK(v, r.n, o.verts))
                    /\ Clause(i, "C05.resample.closedness", o.closed = o.src_closed)
+    ELSE IF r.mode = "spacing_div" THEN
+        /\ Clause(i, "C05.resample.spacing.ok", o.ok)
+        /\ o.ok => /\ Clause(i, "C05.resample.finite", o.finite)
+                   /\ Clause(i, "C05.resample.spacing.vertices",
+                             ResampleSpacingDivOK(v, r.n, o.verts, FALSE) \/ (closed /\ ResampleSpacingDivOK(v, r.n, o.verts, TRUE)))
     ELSE IF r.mode = "spacing" THEN
         \* a closed source may get its first sample repeated as closing vertex
         IF ~o.ok THEN Clause(i, "C05.resample.spacing.ok", SpacingMayFail(v, r.n, FALSE) \/ (closed /\ SpacingMayFail(v, r.n, TRUE)))
